@@ -795,7 +795,11 @@ fn rename_objects(merge_module: &mut Module, rename_table: &HashMap<String, Stri
         }
         // MODULE.VARIANT_CODING.VAR_CHARACTERISTIC
         for var_characteristic in &mut variant_coding.var_characteristic {
-            rename_item_list(&mut var_characteristic.criterion_name_list, rename_table);
+            // the name of a VAR_CHARACTERISTIC is the name of the CHARACTERISTIC / AXIS_PTS that is variant coded
+            // (the criterion_name_list holds names of VAR_CRITERIONs, which are not objects)
+            if let Some(newname) = rename_table.get(&var_characteristic.name) {
+                var_characteristic.name = newname.to_owned();
+            }
         }
     }
 }
